@@ -43,6 +43,11 @@ def run(ctx):
         specs.append(dict(session=sess, fn="sw", emb=embs[i % len(embs)], M=rng.choice([1, 2, 3, 5, 10, 50, 60]), anchor=0, aux=["W"] if i % 2 == 0 else [], zerotol=Fraction(1, 10 ** 9)))
     # the code keeps its direction vectors in float32: every projected coordinate carries a relative error of about 2e-8, so
     # "unchanged" / "zero" / "equal" are granted 1e-6 of the largest coordinate magnitude times the number of points (stated allowance)
+    # argument objects: fresh float arrays per call / ONE set of float64 arrays, integer-dtype arrays (where the embedded coordinates are
+    # integers) or float32 arrays shared by all calls of the session (a call that writes into its arguments, or that treats
+    # an integer container differently, breaks the laws between later calls)
+    for i, sp in enumerate(specs):
+        sp["container"] = [None, "array", "int", "array", "float32", "int"][i % 6]   # (nested lists are outside sliced_wasserstein's documented input type np.array)
     for sp in specs:
         e = sp["emb"]
         off = abs(float(e.t / e.s))
